@@ -983,6 +983,28 @@ func (o *ovsdbClient) monitor(ctx context.Context, cookie MonitorCookie, reconne
 	var err error
 	var tableUpdates interface{}
 
+	// Updates for this monitor can be received as soon as the server has
+	// replied, before the reply has been applied to the cache. Defer them
+	// until then, as it is done for the first monitor of a connection.
+	db.cacheMutex.Lock()
+	wasDeferringUpdates := db.deferUpdates
+	db.deferUpdates = true
+	db.cacheMutex.Unlock()
+	// stopDeferringUpdates applies whatever was deferred meanwhile if this
+	// monitor is not going to
+	stopDeferringUpdates := func(locked bool) {
+		if wasDeferringUpdates {
+			return
+		}
+		if !locked {
+			db.cacheMutex.Lock()
+			defer db.cacheMutex.Unlock()
+		}
+		if err := o.processDeferredUpdates(db, ""); err != nil {
+			o.logger.V(3).Error(err, "error processing deferred updates")
+		}
+	}
+
 	var lastTransactionFound bool
 	switch monitor.Method {
 	case ovsdb.MonitorRPC:
@@ -1002,25 +1024,36 @@ func (o *ovsdbClient) monitor(ctx context.Context, cookie MonitorCookie, reconne
 		}
 		tableUpdates = reply.Updates
 	default:
+		stopDeferringUpdates(false)
 		return fmt.Errorf("unsupported monitor method: %v", monitor.Method)
 	}
 
 	if err != nil {
 		if err == rpc2.ErrShutdown {
+			stopDeferringUpdates(false)
 			return ErrNotConnected
 		}
 		if err.Error() == "unknown method" {
 			if monitor.Method == ovsdb.ConditionalMonitorSinceRPC {
 				o.logger.V(3).Error(err, "method monitor_cond_since not supported, falling back to monitor_cond")
 				monitor.Method = ovsdb.ConditionalMonitorRPC
-				return o.monitor(ctx, cookie, reconnecting, monitor)
+				err = o.monitor(ctx, cookie, reconnecting, monitor)
+				if err != nil {
+					stopDeferringUpdates(false)
+				}
+				return err
 			}
 			if monitor.Method == ovsdb.ConditionalMonitorRPC {
 				o.logger.V(3).Error(err, "method monitor_cond not supported, falling back to monitor")
 				monitor.Method = ovsdb.MonitorRPC
-				return o.monitor(ctx, cookie, reconnecting, monitor)
+				err = o.monitor(ctx, cookie, reconnecting, monitor)
+				if err != nil {
+					stopDeferringUpdates(false)
+				}
+				return err
 			}
 		}
+		stopDeferringUpdates(false)
 		return err
 	}
 
@@ -1051,10 +1084,19 @@ func (o *ovsdbClient) monitor(ctx context.Context, cookie MonitorCookie, reconne
 	}
 
 	if err != nil {
+		stopDeferringUpdates(true)
 		return err
 	}
 
 	// populate any deferred updates
+	return o.processDeferredUpdates(db, cookie.ID)
+}
+
+// processDeferredUpdates stops deferring updates and applies those deferred so
+// far to the cache. If cookieID is provided, the last transaction ID of that
+// monitor is updated accordingly. Must be called with a lock on cacheMutex.
+func (o *ovsdbClient) processDeferredUpdates(db *database, cookieID string) error {
+	var err error
 	db.deferUpdates = false
 	for _, update := range db.deferredUpdates {
 		if update.updates != nil {
@@ -1068,8 +1110,8 @@ func (o *ovsdbClient) monitor(ctx context.Context, cookie MonitorCookie, reconne
 				return err
 			}
 		}
-		if len(update.lastTxnID) > 0 {
-			db.monitors[cookie.ID].LastTransactionID = update.lastTxnID
+		if len(update.lastTxnID) > 0 && cookieID != "" {
+			db.monitors[cookieID].LastTransactionID = update.lastTxnID
 		}
 	}
 	// clear deferred updates for next time
